@@ -58,6 +58,31 @@ CHECKS = {
    text="Every successful GMM fit of the real code (random, hostile and degenerate datasets, both initialisers, f32/f64) is judged: parameter validity conditions from the property, and membership probabilities / predicted component on training rows, means, and rows at controlled sigma-distances (incl. the radii where exponentials underflow) in four memory layouts. All multisets of up to 5 (7) values from {0,1,2,3} x K x initialiser x regularisation are enumerated.",
    note="Trusts the harness mixture evaluation (max-shifted posterior, own Cholesky). Fit errors are inconclusive, panics violations. Posterior comparison and moment identities go beyond the literal text (own signatures). Rows whose squared distance overflows the element type are not generated.",
    ref="DESIGN.md §5 C10"),
+ "C04": dict(
+   technique="runtime monitor: table of documented parameter ranges x boundary grids (adjacent floats, -0.0, tiny/huge, usize::MAX) for every builder; oracle compares check_ref / check / check_unwrap / unchecked fit, fit_with, transform verdicts and error values, counts rng/distance uses after a rejected call",
+   text="For every parameter builder in the workspace the full cross product of per-parameter boundary grids (pairwise + random sample for the three largest SVM tables in quick) is pushed through check_ref, check, check_unwrap and every entry point of the unchecked builder; the table (transcribed from the documentation) says accept / reject / unspecified, the unchecked forms must return exactly the guard's error without panicking or training, valid points must behave like their checked form. Exhaustive over the grids.",
+   note="Trusts the transcription of documented ranges into the table; boundaries worded inconsistently in the docs are 'unspecified' (only agreement between check, check_ref and fit is demanded). Non-finite parameter values are outside the property.",
+   ref="DESIGN.md §5 C04"),
+ "C06": dict(
+   technique="runtime monitor: kernel-function oracle per cell (f64), symmetry/diagonal/PSD, sparse-pattern oracle from exact rank counting across the three neighbour indices, accessor consistency; hierarchical clustering judged by union-find components (single linkage), kodama dendrogram cut and an independent naive Lance-Williams agglomeration; exhaustive small lattice scope",
+   text="Dense and sparse kernels built by the real code are compared cell by cell with the kernel function, sparse storage patterns with the k-nearest-neighbour definition (ties = ambiguity band), accessors with the rebuilt matrix; agglomerative clustering with cluster counts 1..n+2 and thresholds at / between / outside all merge heights for 7 linkages against three independent judges. All sequences of 2..5 points on a 3x2 lattice x all k x 3 indices x 7 linkages are enumerated.",
+   note="Trusts the harness kernel/linkage arithmetic and kodama for tie/inversion classes. A watchdog without verdict power ends a hung hierarchical call (exit 3 unless violations were already recorded).",
+   ref="DESIGN.md §5 C06"),
+ "C14": dict(
+   technique="runtime monitor: invariant walker over the published tree with the training set routed by the prediction rule (depth, children, min_weight_split/leaf, impurity decrease recomputed in f64, leaf majority, importances), fit/predict routing agreement on threshold-equal values; worker processes isolate aborting fits; exhaustive small scopes",
+   text="Every fitted tree of the real code is copied through the public observers and judged against the property's structural and statistical conditions using brute-force routing of the training set; values equal to a threshold are walked with both comparisons and one reading must explain statistics and predictions together. Three complete small scopes (all feature patterns x labellings x 32-64 parameter sets, 9.5M fits quick) plus random hostile data (dense float neighbourhoods a few ulps apart, float weights, zero leaf weight, limit grid).",
+   note="Trusts the harness impurity arithmetic (thresholds 256*eps32*S, >= 69x above clean residuals). Cases run in worker processes: a worker death is C14/fit/process-abort. Split optimality is not part of the property and not judged.",
+   ref="DESIGN.md §5 C14"),
+ "C15": dict(
+   technique="runtime history monitor: every incremental update judged from the observed previous state against the documented recurrence (naive Bayes textbook statistics vs single fit; mini-batch k-means running mean and cumulative counts; FTRL per-coordinate z/n update incl. injected states through serde), all 2^(n-1) cuts of small datasets enumerated",
+   text="Random datasets are cut into ordered batches in many ways (and every cut of small datasets is enumerated); after each fit_with the model state (read through serde/bincode) is compared with the textbook estimate / recurrence applied to the previous observed state, predictions must maximise the posterior, convergence flags must be truthful, replays must be bit-identical, FTRL weights exactly zero inside the l1 band. Exhaustive over cuts of 8-11-row datasets, sampled beyond.",
+   note="Trusts the harness recurrences in f64 and the bincode mirror structs for private state. About 4% of FTRL histories (beta = l2 = 0 at n = 0) and tie-enumeration overflows are inconclusive.",
+   ref="DESIGN.md §5 C15"),
+ "C16": dict(
+   technique="runtime monitor: postcondition oracle on transformed training data (means/variances/ranges/norms/identity covariance, corrected two-pass statistics in f64), affine-map oracle from definition and from the published accessors on unseen data, row-selection/permutation/layout metamorphic checks, dataset pass-through, exhaustive tiny matrices; Miri lane over the transmute path",
+   text="Scalers and whiteners of the real code are fitted on hostile matrices (offsets to 1e9, spreads to 1e-6, constant/zero columns, zero rows, n from 1, f32/f64) and judged on the training matrix and on unseen rows against the normalisation the property states and against the affine map read off their accessors; all matrices with n<=3, p<=2 over {-1,0,1,2} are enumerated for every variant; empty training data must be rejected.",
+   note="Trusts the harness statistics; ill-conditioned columns (tolerance > 0.02) are skipped and counted; columns inside the code's absolute constant-guard accept either outcome. The rare rotated-singular-plane fault of the external linfa-linalg SVD is a recorded known finding with a discriminating signature.",
+   ref="DESIGN.md §5 C16"),
 }
 
 NOT_YET = {}
